@@ -151,6 +151,10 @@ func (i *Int) MulCap(lhs, rhs *Int, capacity int) {
 // The number of bits of the quotient will be numerator.AnnouncedLen() and
 // the number of bits of the remainder will be denominator.AnnouncedLen().
 func (i *Int) EuclideanDiv(remainder *Nat, numerator, denominator *Int) (ok ct.Bool) {
+	// i may alias numerator or denominator: read their lengths before writing to i.
+	numeratorLen := numerator.AnnouncedLen()
+	denominatorLen := denominator.AnnouncedLen()
+
 	var qq, rr, n, d Nat
 	n.Abs(numerator)
 	d.Abs(denominator)
@@ -176,13 +180,13 @@ func (i *Int) EuclideanDiv(remainder *Nat, numerator, denominator *Int) (ok ct.B
 	qan.Neg(&qa)
 	qOut.CondAssign(sb, &qan)
 	qOut.CondAssign(sb.Not(), &qa)
-	qOut.Resize(numerator.AnnouncedLen())
+	qOut.Resize(numeratorLen)
 	i.CondAssign(ok, &qOut)
 
 	if remainder != nil {
 		var rOutAbs Nat
 		rOutAbs.Abs(&rOut)
-		rOutAbs.Resize(denominator.AnnouncedLen())
+		rOutAbs.Resize(denominatorLen)
 		remainder.CondAssign(ok, &rOutAbs)
 	}
 
@@ -197,6 +201,10 @@ func (i *Int) EuclideanDiv(remainder *Nat, numerator, denominator *Int) (ok ct.B
 // (a negative numerator never has quotient 0) and
 // the number of bits of the remainder will be denominator.AnnouncedLen().
 func (i *Int) EuclideanDivVarTime(remainder *Nat, numerator, denominator *Int) (ok ct.Bool) {
+	// i may alias numerator or denominator: read their lengths before writing to i.
+	numeratorLen := numerator.AnnouncedLen()
+	denominatorLen := denominator.TrueLen()
+
 	var qq, rr, n, d Nat
 	n.Abs(numerator)
 	d.Abs(denominator)
@@ -233,7 +241,7 @@ func (i *Int) EuclideanDivVarTime(remainder *Nat, numerator, denominator *Int) (
 		qOut.Set(&qan)
 	}
 	i.Set(&qOut)
-	i.Resize(min(numerator.AnnouncedLen(), max(numerator.AnnouncedLen()-denominator.TrueLen()+2, 1)))
+	i.Resize(min(numeratorLen, max(numeratorLen-denominatorLen+2, 1)))
 
 	if remainder != nil {
 		var rOut Int
@@ -249,7 +257,7 @@ func (i *Int) EuclideanDivVarTime(remainder *Nat, numerator, denominator *Int) (
 			rOut.Set(&notR)
 		}
 		remainder.Abs(&rOut)
-		remainder.Resize(denominator.TrueLen())
+		remainder.Resize(denominatorLen)
 	}
 
 	return ct.True
@@ -261,6 +269,10 @@ func (i *Int) EuclideanDivVarTime(remainder *Nat, numerator, denominator *Int) (
 // The number of bits of the quotient will be numerator.AnnouncedLen() and
 // the number of bits of the remainder will be denominator.AnnouncedLen().
 func (i *Int) Div(remainder, numerator, denominator *Int) ct.Bool {
+	// i may alias numerator or denominator: read their lengths before writing to i.
+	numeratorLen := numerator.AnnouncedLen()
+	denominatorLen := denominator.AnnouncedLen()
+
 	ok := denominator.IsNonZero()
 	ns := ((*saferith.Int)(numerator)).IsNegative()
 	ds := ((*saferith.Int)(denominator)).IsNegative()
@@ -274,14 +286,14 @@ func (i *Int) Div(remainder, numerator, denominator *Int) ct.Bool {
 	var qInt saferith.Int
 	qInt.SetNat(&q)
 	qInt.Neg(qs)
-	qInt.Resize(numerator.AnnouncedLen())
+	qInt.Resize(numeratorLen)
 	i.CondAssign(ok, (*Int)(&qInt))
 
 	if remainder != nil {
 		var rInt saferith.Int
 		rInt.SetNat(&r)
 		rInt.Neg(rs)
-		rInt.Resize(denominator.AnnouncedLen())
+		rInt.Resize(denominatorLen)
 		remainder.CondAssign(ok, (*Int)(&rInt))
 	}
 
@@ -298,6 +310,9 @@ func (i *Int) DivVarTime(remainder, numerator, denominator *Int) (ok ct.Bool) {
 	if denominator.IsNonZero() == ct.False {
 		return ct.False
 	}
+	// i may alias numerator or denominator: read their lengths before writing to i.
+	numeratorLen := numerator.AnnouncedLen()
+	denominatorLen := denominator.TrueLen()
 
 	ns := ((*saferith.Int)(numerator)).IsNegative()
 	ds := ((*saferith.Int)(denominator)).IsNegative()
@@ -311,14 +326,14 @@ func (i *Int) DivVarTime(remainder, numerator, denominator *Int) (ok ct.Bool) {
 	var qInt saferith.Int
 	qInt.SetNat(&q)
 	qInt.Neg(qs)
-	qInt.Resize(min(numerator.AnnouncedLen(), max(numerator.AnnouncedLen()-denominator.TrueLen()+2, 0)))
+	qInt.Resize(min(numeratorLen, max(numeratorLen-denominatorLen+2, 0)))
 	i.Set((*Int)(&qInt))
 
 	if remainder != nil {
 		var rInt saferith.Int
 		rInt.SetNat(&r)
 		rInt.Neg(rs)
-		rInt.Resize(denominator.TrueLen())
+		rInt.Resize(denominatorLen)
 		remainder.Set((*Int)(&rInt))
 	}
 
